@@ -26,7 +26,7 @@ def definitional(reduced):
     return [[a, b - a - 1] for a, b in zip(reduced, reduced[1:])]
 
 
-def check_set(rec, n, reduced, position_lists, perms='some', idx_dtype='int64'):
+def check_set(rec, n, reduced, position_lists, perms='some', idx_dtype='int64', flag_kind='bool'):
     L = lib.lib()
     red = np.array(reduced, dtype=int)
     pts = np.column_stack((np.arange(n, dtype=float), np.zeros(n)))
@@ -61,7 +61,9 @@ def check_set(rec, n, reduced, position_lists, perms='some', idx_dtype='int64'):
                 dt = np.dtype(idx_dtype)
                 # a position list may be held in any integer type that can represent the positions
                 Iarg = np.array(I, dtype=dt if (not I or max(I) <= np.iinfo(dt).max) else np.int64)
-            out = rec.call(4 * n + 16, L.rdp.mapping, Iarg, red, rem, flag, _site='rdp.mapping')
+            # the `sorted` flag may be any truth value (np.bool_ from a comparison, 0/1)
+            farg = flag if flag_kind == 'bool' else (np.bool_(flag) if flag_kind == 'numpy' else int(flag))
+            out = rec.call(4 * n + 16, L.rdp.mapping, Iarg, red, rem, farg, _site='rdp.mapping')
             if out is FAILED:
                 return
             got = [int(v) for v in np.asarray(out)]
@@ -98,15 +100,18 @@ def sampled(draw, tier):
     n = draw(st.one_of(st.integers(2, 60), st.integers(2, 1000 if tier == 'thorough' else 500)))
     reduced = draw(S.index_sets(n))
     m = len(reduced)
-    I = sorted(set(draw(st.lists(st.integers(0, m - 1), max_size=12))))
+    I = sorted(draw(st.lists(st.integers(0, m - 1), max_size=12)))     # ascending, repeats allowed (add_points_even passes pairs)
+    if draw(st.booleans()):
+        I = sorted(set(I))
     return {'kind': 'sampled', 'n': n, 'reduced': reduced, 'I': I,
-            'dtype': draw(st.sampled_from(['int64', 'int64', 'int32', 'int16', 'uint16', 'uint8', 'int8', 'list']))}
+            'dtype': draw(st.sampled_from(['int64', 'int64', 'int32', 'int16', 'uint16', 'uint8', 'int8', 'list'])),
+            'flag_kind': draw(st.sampled_from(['bool', 'bool', 'numpy', 'int']))}
 
 
 def oracle_sampled(case, rec):
     rec.tag('sampled')
     rec.tag('positions:' + case.get('dtype', 'int64'))
-    check_set(rec, case['n'], case['reduced'], [case['I'], list(range(len(case['reduced'])))], idx_dtype=case.get('dtype', 'int64'))
+    check_set(rec, case['n'], case['reduced'], [case['I'], list(range(len(case['reduced'])))], idx_dtype=case.get('dtype', 'int64'), flag_kind=case.get('flag_kind', 'bool'))
 
 
 @st.composite
